@@ -3,8 +3,9 @@
 (* configurations, in one file or split over two files (a module only in the       *)
 (* second file; a module defined in both files - the first definition wins).       *)
 EXTENDS ConfigRules, Json
-CONSTANTS NMods, Choices, Splits
-VARIABLES assign, split
+CONSTANTS NMods, Choices, Splits,
+          Modes     \* "plain" | "share" (one Param object for several modules) | "twice" (configuration processed twice)
+VARIABLES assign, split, mode
 
 E(par, prop, form, ty, n) == [par |-> par, prop |-> prop, form |-> form, v |-> [ty |-> ty, n |-> n, m |-> 0]]
 Base == {E("mp", "value", "B", "int", 6), E("n", "value", "B", "int", 10)}
@@ -21,11 +22,11 @@ NodeCfgs == <<
 Name(k) == "m" \o ToString(k)
 Mod(k) == [m |-> Name(k), cfg |-> NodeCfgs[assign[k]]]
 
-GInit == assign = <<>> /\ split \in Splits
+GInit == assign = <<>> /\ split \in Splits /\ mode \in Modes
 GNext == /\ Len(assign) < NMods
          /\ \E c \in Choices : assign' = Append(assign, c)
-         /\ UNCHANGED split
-GSpec == GInit /\ [][GNext]_<<assign, split>>
+         /\ UNCHANGED <<split, mode>>
+GSpec == GInit /\ [][GNext]_<<assign, split, mode>>
 
 (* split 0: one file; 1: the last module lives in a second file; 2: the second file redefines *)
 (* module m1 with configuration 4 (wrong type) - it must be ignored - and holds the last one  *)
@@ -34,7 +35,7 @@ Files == IF split = 0 THEN << [k \in 1 .. NMods |-> Mod(k)] >>
          ELSE << [k \in 1 .. NMods - 1 |-> Mod(k)], << [m |-> Name(1), cfg |-> NodeCfgs[4]], Mod(NMods) >> >>
 Merged == Merge(Files)
 Emit1 == Len(assign) = NMods =>
-   PrintT(<<"BEH", ToJson([files |-> Files,
+   PrintT(<<"BEH", ToJson([files |-> Files, mode |-> mode,
                            allowed |-> [m \in DOMAIN Merged |-> Allowed(Merged[m])],
                            origin |-> [m \in DOMAIN Merged |-> FirstFile(Files, m)],
                            writes |-> [m \in DOMAIN Merged |-> WriteSet(Merged[m])]])>>)
